@@ -299,7 +299,7 @@ impl Model {
                     (0..*n)
                         .map(|_| {
                             k = k.wrapping_add(1);
-                            0x10 + k
+                            0x10 + (k % 0x6f)
                         })
                         .collect()
                 })
@@ -581,13 +581,103 @@ fn histories<M: GuestMemory + RegionPtrs>(ctx: &Ctx, imp: &str, m: &M, l: &Layou
     ctx.add_traces(t);
 }
 
+/// Xen build: guest memory made of device-backed regions on the emulated gntdev/privcmd. The
+/// harness keeps its own shared view of the backing file for loading and dumping the state, so
+/// the regions under test (whose own pointer is null when they are mapped on demand) are only
+/// ever accessed through the library.
+#[cfg(feature = "xen")]
+mod xen_dev {
+    use super::*;
+    use crate::xen_emu::{Emu, PAGE};
+    use vm_memory::{GuestMemoryMmap, GuestRegionMmap};
+
+    pub struct DevMem {
+        pub mem: GuestMemoryMmap<()>,
+        pub views: Vec<*mut u8>,
+    }
+
+    impl GuestMemory for DevMem {
+        type R = GuestRegionMmap<()>;
+        fn num_regions(&self) -> usize {
+            self.mem.num_regions()
+        }
+        fn find_region(&self, addr: GuestAddress) -> Option<&Self::R> {
+            self.mem.find_region(addr)
+        }
+        fn iter(&self) -> impl Iterator<Item = &Self::R> {
+            self.mem.iter()
+        }
+    }
+
+    impl RegionPtrs for DevMem {
+        fn region_ptr(&self, i: usize) -> *mut u8 {
+            self.views[i]
+        }
+    }
+
+    pub fn run(ctx: &Ctx, thorough: bool) {
+        use std::os::fd::AsRawFd;
+        let emu = Emu::new(64);
+        for (kind, on_demand) in [("xen-grant-on-demand", true), ("xen-grant-in-advance", false)] {
+            // two adjacent one-page regions, a hole, and a third region of 100 bytes
+            let specs: [(u64, usize); 3] = [(8, 4096), (9, 4096), (12, 100)];
+            let mut regions = Vec::new();
+            let mut views = Vec::new();
+            let mut regs = Vec::new();
+            for (page, size) in specs {
+                regions.push(emu.grant_region(page, size, on_demand).unwrap());
+                regs.push((page * PAGE, size as u64));
+                // SAFETY: a shared view of the same file range, owned by the harness
+                let v = unsafe { libc::mmap(std::ptr::null_mut(), 4096, libc::PROT_READ | libc::PROT_WRITE, libc::MAP_SHARED, emu.file.as_raw_fd(), (page * PAGE) as libc::off_t) };
+                assert!(v != libc::MAP_FAILED);
+                views.push(v as *mut u8);
+            }
+            let l = Layout { regs };
+            let dm = DevMem { mem: GuestMemoryMmap::from_regions(regions).unwrap(), views };
+            let st = Model::labelled(&l);
+            let mut t = 0u64;
+            let addrs: Vec<u64> = [0x8000u64, 0x8001, 0x8ff8, 0x8ffc, 0x8ffe, 0x8fff, 0x9000, 0x9001, 0x9ff0, 0x9ffd, 0x9fff, 0xa000, 0xbfff, 0xc000, 0xc060, 0xc063, 0xc064].to_vec();
+            let lens: Vec<usize> = if thorough { vec![1, 2, 3, 4, 5, 8, 16, 17, 100, 4096, 4097, 8192, 8193] } else { vec![1, 2, 4, 5, 8, 16, 100, 4097, 8193] };
+            for &a in &addrs {
+                for &len in &lens {
+                    for (ri, route) in ROUTES.iter().enumerate() {
+                        if !route.supports(len) || (len > 200 && matches!(route.base(), Route::ReadFrom | Route::ReadExactFrom | Route::WriteTo | Route::WriteAllTo) && *route != route.base()) {
+                            continue;
+                        }
+                        // atomic routes on on-demand regions are a recorded finding of C17 (get_atomic_ref)
+                        let op = Op { route: *route, addr: a, len, tag: ri as u8 + 1 };
+                        emu.take_log();
+                        step(ctx, kind, &dm, &l, &st, &op, &[], None);
+                        t += 1;
+                        if on_demand && !emu.live().is_empty() {
+                            ctx.fail(&format!("C03/{}/{:?}/window-left-mapped", kind, route), &format!("{:?}", emu.live()), json!({"op": op.to_json()}));
+                            emu.state.borrow_mut().live.clear();
+                        }
+                    }
+                }
+            }
+            ctx.add_transitions(t);
+            ctx.add_traces(t);
+            ctx.add_states(1);
+            for v in &dm.views {
+                unsafe { libc::munmap(*v as *mut _, 4096) };
+            }
+            drop(dm);
+            let pe = std::mem::take(&mut emu.state.borrow_mut().protocol_errors);
+            if !pe.is_empty() {
+                ctx.fail(&format!("C03/{}/device-protocol", kind), &format!("{:?}", pe), json!({}));
+            }
+        }
+    }
+}
+
 pub fn run(tier: Tier, replay: Option<String>) -> i32 {
     let ctx = crate::new_ctx("C03", tier, "model_checking", &replay);
     let xen = cfg!(feature = "xen");
     ctx.set_rule("E1: (a) depth 1 from a state in which every mapped byte carries a distinct label: every layout over U one-byte cells x bases {0, mid, top} x every route (write, read, *_slice, *_obj of 1..16 bytes, the four stream forms with ample in-memory streams, store/load) x every start address in [base-1, base+U+1] x every length 1..=U+2; (b) BFS over all histories up to depth 3 of a reduced alphabet (all routes x ranges that overlap and straddle region boundaries and holes), state = complete memory contents, restored from the snapshot. Every transition runs on the real memory object; result class, counts, the complete guest memory (all regions, via host pointers), read buffers incl. untouched tail and (file-backed) the backing file are compared with a sparse byte-array model.");
     ctx.assume("error variants other than InvalidGuestAddress and PartialBuffer{expected,completed} are compared by class only");
     if xen {
-        ctx.assume("Xen build: regions are MmapXenFlags::UNIX mappings (the only Xen flavour that needs no device)");
+        ctx.assume("Xen build: the cell layouts use MmapXenFlags::UNIX mappings; grant regions (mapped in advance and on demand) are exercised on the emulated gntdev with page-sized regions");
     }
     let u = if tier.thorough() { 8 } else { 7 };
     if let Some(r) = ctx.replay_of.clone() {
@@ -718,6 +808,8 @@ pub fn run(tier: Tier, replay: Option<String>) -> i32 {
             }
         }
     }
+    #[cfg(feature = "xen")]
+    xen_dev::run(&ctx, tier.thorough());
     ctx.extra("universe_cells", json!(u));
     ctx.extra("cell_layouts", json!(cells.len()));
     ctx.sample(json!({"impl": anon, "layout": "[0xfffffffffffffff9,+2) [0xfffffffffffffffb,+1)", "op": {"route": "WriteSlice", "addr": "0xfffffffffffffffa", "len": 3}, "expected": "PartialBuffer{expected:3, completed:2}, bytes land in both regions"}));
